@@ -133,6 +133,35 @@ CHECKS = {
              "compared byte-for-byte with the extracted model on boundary + random records, arbitrary byte strings, golden vectors.",
         design="7/C19", technique="Coq proof (algebraic round-trip, layout lemma) + byte-level correspondence run",
         note="Bytes modelled as N < 256; only the canonical 36-character UUID text form is modelled. " + NOTE_COMMON),
+    "C10": dict(
+        text="This revision covers the INLINE client (Set, SetReader, Create+Write*+Close reaching usecase/store.Set); the gRPC "
+             "abort paths (cancelled uploads, stream reader/writer errors) are added later and are not claimed yet. Theorems "
+             "(Coq, for every source, every split of it into Read results, every per-root fault plan - ENOSPC at any offset, "
+             "all-or-nothing or after a partial write of any length - every reported free space and every candidate order of the "
+             "shuffle, every io.Copy buffer size) about an executable model of the retry loop of store.Set and of content.Store "
+             "(bufWriter, NotEnoughSpaceError{Start,Middle,End}, MultiReader re-reading, minSize, closing of partial files): for the "
+             "repaired write path a write that returns nil stored exactly the source bytes and the source did not fail "
+             "(C10_success_is_exact); a failing source makes Set fail; a failed Set writes neither content record nor version "
+             "record - the Core machine's state is unchanged, so every later operation answers as before - leaves only files no "
+             "record points to (each a prefix of the source) and no open handle (C10_failure_no_trace); a fault-free candidate "
+             "that reports more free space than every candidate before it makes the write succeed with exactly the source bytes "
+             "(C10_continues_on_other_root, C10_continues_two_roots); when no root has room the result is ErrNoFreeSpace "
+             "(C10_no_room_anywhere). For the pinned tree the statements are REFUTED with vm_compute witnesses "
+             "(C10_success_is_exact_refuted_orig = finding D16, duplicated bytes after a partial write; "
+             "C10_continues_on_other_root_refuted_orig = finding D17, read from an already closed partial file when two roots run "
+             "out) and proved under the hypothesis that names the trigger (_partial_orig: all-or-nothing ENOSPC). Both defects were "
+             "reproduced on the real code by this check and repaired (fix: commits); the corpus witnesses run first on every run. "
+             "Tie: seeded fault scripts over 1-3 roots through the real inline database with a verif-tagged File.Write fault plan "
+             "and reported-free-space override; the harness observes the roots actually visited (the shuffle), the write sizes, the "
+             "error class, Get afterwards, every file below the roots (length+MD5) and created/closed handles, and every line is "
+             "compared with the extracted model run on the observed candidate order; the property is also evaluated directly on "
+             "the implementation's observations; 60 small cases are re-evaluated with vm_compute against the extracted code.",
+        design="7/C10", technique="Coq proof over an executable fault model (+ refutation witnesses for the unrepaired code) + "
+                                  "fault-injection correspondence run",
+        note="File system faults are injected (a faulted Write stores min(capacity-offset, keep) bytes and returns ENOSPC), not "
+             "produced by a full disk; Badger record writes are assumed to succeed; Create with several Writes is only run "
+             "without write faults (timing-dependent split; the theorems hold for every split). Orphan partial files left in "
+             "roots that ran out are never removed by fs_db (recorded observation, invisible to readers). " + NOTE_COMMON),
     "C11": dict(
         text="Covers the error-class / isolation-level mapping (theorems) and whole client histories through both clients "
              "(differential run incl. aborted uploads; defects D4, D5, D6 found this way and repaired by fix: commits). Theorems (Coq, every error tree: any depth of fmt.Errorf %w wrapping and errors.Join "
